@@ -8,7 +8,11 @@ package lfshttp
 // if the redirect target has the same URL.Host (host:port) as the request the
 // header was on, and an https request is never turned into an http one.
 // Header keys of requests are canonical (net/http's type invariant), which is
-// why the code may compare against the literal "Authorization".
+// why the code may compare against the literal "Authorization".  The userinfo
+// of the redirected request is what the redirect location itself carries
+// (url_user(location)): credentials embedded in the URL of the original
+// request are never carried over, and DoWithRedirect hands the new request on
+// with the userinfo it was built with.
 //@ func newRequestForRetry
 //@   props C10
 //@   requires @inv req != nil && req.URL != nil && req.Header != nil
@@ -18,6 +22,8 @@ package lfshttp
 //@   ensures result1 == nil ==> !(req.URL.Scheme == "https" && result0.URL.Scheme == "http")
 //@   ensures result1 != nil ==> result0 == nil
 //@   ensures result1 == nil ==> result0.Header != nil && forall_v(k, has(result0.Header, k), has(result0.Header, k) ==> str_canon(k) == k)
+//@   ensures result1 == nil ==> result0.URL.User == url_user(location)
+//@   monitor retrieduser[0] := result0.URL.User
 //@   loop 1 invariant has(newReq.Header, "Authorization") ==> sameHost
 //@   loop 1 invariant newReq.Header != req.Header
 //@   loop 1 invariant forall_v(k, has(req.Header, k), has(req.Header, k) ==> str_canon(k) == k)
@@ -32,8 +38,14 @@ package lfshttp
 //@   requires len(via) <= 2
 //@   decreases 3 - len(via)
 
+// C15: one call sends the request at most once plus the number of retries
+// attached to that very request (lfshttp.WithRetries), and only once when
+// none is attached - a request is never replayed on the quiet.
 //@ func (*Client).DoWithRedirect
-//@   props C10
+//@   props C10 C15
+//@   at call (*http.Client).Do:1 assert @C15 arg1__ == req && i >= 0
+//@   at call (*http.Client).Do:1 assert @C15 !req_hasretries(req) || req_retries(req) <= 0 ==> i < 1
+//@   at call (*http.Client).Do:1 assert @C15 req_hasretries(req) && req_retries(req) > 0 ==> i <= req_retries(req)
 //@   requires @inv req != nil && req.URL != nil && req.Header != nil
 //@   requires @inv forall_v(k, has(req.Header, k), has(req.Header, k) ==> str_canon(k) == k)
 //@   ensures result0 != nil ==> result2 == nil && result1 == nil
@@ -41,6 +53,7 @@ package lfshttp
 //@   ensures result0 != nil ==> result0.URL != nil && result0.Header != nil && forall_v(k, has(result0.Header, k), has(result0.Header, k) ==> str_canon(k) == k)
 //@   ensures result0 != nil && has(result0.Header, "Authorization") ==> result0.URL.Host == old(req.URL.Host)
 //@   ensures result0 != nil ==> !(old(req.URL.Scheme) == "https" && result0.URL.Scheme == "http")
+//@   ensures result0 != nil ==> result0.URL.User == retrieduser(0)
 
 // Tracing and response classification: assumed frames (they log, wrap the
 // request body and build error values; they do not touch URL or Header).
@@ -58,8 +71,9 @@ package lfshttp
 //@   modifies fresh
 //@ func Retries
 //@   assumed
-//@   props C10
+//@   props C10 C15
 //@   modifies fresh
+//@   ensures result0 == req_retries(req) && result1 == req_hasretries(req)
 
 // C18: every API request built by the client asks for the LFS media type, and
 // a request with a body declares that media type and its exact length.
